@@ -15,7 +15,6 @@ from happysimulator.core.entity import Entity
 from happysimulator.core.event import (
     Event,
     _active_debugger_context,
-    reset_event_counter,
 )
 from happysimulator.core.event_heap import EventHeap
 from happysimulator.core.protocols import Simulatable
@@ -74,7 +73,10 @@ class Simulation:
         fault_schedule: "FaultSchedule | None" = None,
         duration: float | None = None,
     ):
-        reset_event_counter()
+        # The global tie-break counter is deliberately *not* reset here: events built
+        # before this constructor (a common pattern: build the initial events, then the
+        # Simulation, then schedule them) must keep sorting before events created
+        # afterwards, whatever was built earlier in the process.
 
         if duration is not None and end_time is not None:
             raise ValueError("Cannot specify both 'duration' and 'end_time'")
